@@ -184,8 +184,166 @@ def closed_transition_escapes(F, body, starts, sinks):
     return bad
 
 
+def feasible_reach(body, cut=()):
+    """blocks reachable from the entry without the edges in `cut`, where a switch on the discriminant of a Result-typed
+    local follows only the edge of the variant the local is known to hold on that path: it was assigned a Result::Ok / Err
+    literal, moved from a local of known variant, or selected by an earlier switch (`let r = match r { Err(e) if c => Ok(()),
+    x => x }; if let Err(e) = r {..}` - the second test is not independent of the first).  Locals whose address is taken
+    mutably are not tracked.  Removes infeasible paths only."""
+    tracked = {l for l, (ty, nm) in enumerate(body.locals) if ty.split('<')[0].endswith('result::Result')}
+    for i, j, s in body.stmts():
+        if s[0] == '=' and s[2][0] in ('ref', 'ptr') and s[2][1] and s[2][2][0] in tracked and '*' not in s[2][2][1]:
+            tracked.discard(s[2][2][0])
+    cut = set(cut)
+    seen, reach, stack = set(), set(), [(0, frozenset())]
+    while stack:
+        st = stack.pop()
+        if st in seen:
+            continue
+        seen.add(st)
+        bb, kn = st
+        reach.add(bb)
+        know = dict(kn)
+        blk = body.blocks[bb]
+        discr_of = {}
+        for s in blk['s']:
+            if s[0] == 'sd' and s[1][0] in tracked:
+                know.pop(s[1][0], None)
+            if s[0] != '=':
+                continue
+            (l, proj), rv = s[1], s[2]
+            if rv[0] == 'discr' and not proj and not rv[1][1]:
+                discr_of[l] = rv[1][0]
+            if l not in tracked:
+                continue
+            if proj:
+                if proj[0] != '*':
+                    know.pop(l, None)
+            elif rv[0] == 'agg' and rv[1][0] == 'adt' and rv[1][1].endswith('result::Result') and rv[1][2] in STD_VARIANTS['Result']:
+                know[l] = STD_VARIANTS['Result'][rv[1][2]]
+            elif rv[0] == 'use' and rv[1][0] in ('c', 'm') and not rv[1][1][1] and rv[1][1][0] in know:
+                know[l] = know[rv[1][1][0]]
+            else:
+                know.pop(l, None)
+        t = blk['t']
+        nxt = [(s, None) for s in body.succ[bb]]
+        if t[0] == 'call' and t[1]['dst'][0] in tracked:
+            know.pop(t[1]['dst'][0], None)
+        elif t[0] == 'switch' and t[1][0] in ('c', 'm') and not t[1][1][1] and discr_of.get(t[1][1][0]) in tracked:
+            l = discr_of[t[1][1][0]]
+            vals = {int(v): tgt for v, tgt in t[2]}
+            rest = [v for v in (0, 1) if v not in vals]
+            if len(rest) == 1:
+                vals[rest[0]] = t[3]
+            if set(vals) == {0, 1}:
+                nxt = [(tgt, (l, v)) for v, tgt in vals.items() if tgt in body.succ[bb] and know.get(l, v) == v]
+        for s, fact in nxt:
+            if (bb, s) in cut:
+                continue
+            k2 = dict(know)
+            if fact is not None:
+                k2[fact[0]] = fact[1]
+            stack.append((s, frozenset(k2.items())))
+    return reach
+
+
+def state_known_not(ctx, body, variant, stale=()):
+    """branch edges of `body` on which self.state is known NOT to be `variant`: the edges of a switch on the discriminant
+    of self.state that the variant's value does not select (the otherwise edge stands for every value not listed), and the
+    false edge of a test of exactly self.state.is_drained() for Drained.  Tests evaluated in a block of `stale` (behind a
+    site that may have changed the state) say nothing about the state on entry and are left out."""
+    F = ctx.facts
+    val, = state_values(ctx, variant)
+    out = set()
+    for sw in state_switches(F, body):
+        if sw.bb not in stale:
+            out |= {(sw.bb, t) for v, t in sw.edges if t != sw.target(val)}
+    if variant == 'Drained':
+        for br, f, t in call_tests(F, body, 'State::is_drained', 'state'):
+            inner = peel_not(br.desc)[0]
+            if f != t and len(inner) > 4 and isinstance(inner[4], int) and inner[4] not in stale:
+                out.add((br.bb, f))
+    return out
+
+
+def packet_state_sites(ctx, hp):
+    """{block: description} of the sites of handle_packet that act on a packet: processing it, storing self.error /
+    self.state, emitting the Drained endpoint event"""
+    F = ctx.facts
+    sites = {c.bb: 'process_decrypted_packet' for c in hp.calls_to('Connection::process_decrypted_packet')}
+    for fld in ('error', 'state'):
+        for w in field_writes(F, CONN, fld, crate='quinn_proto'):
+            if w.body.id == hp.id and w.bb in hp.live_blocks() and not (w.kind == 'mutborrow' and w.call is not None and is_noise(w.call)):
+                sites[w.bb] = 'store to self.' + fld
+    return sites
+
+
+def settled_once_closed(ctx):
+    """a/nothing_handled_once_draining, d/error_on_closed_connection_ignored (repair 467a010).
+    (1) Draining / Drained are final for handle_packet: for each of the two states, once the branch edges on which
+    self.state is known to be a different state are removed, no site that processes the packet, stores self.error /
+    self.state or emits Drained is reachable from the entry.
+    (2) While Closed, an error other than a stateless reset settles nothing anew: the stores to self.error and self.state in
+    handle_packet are unreachable from the entry once the edges `connection was open on entry` (false edge of a test of
+    self.state.is_closed() evaluated before anything can change the state) and `the error is ConnectionError::Reset` are
+    removed - with the variant of Result locals followed along the path (feasible_reach), so rewriting the result to Ok(())
+    counts as not reaching the error mapping."""
+    F = ctx.facts
+    hp = ctx.pfn('Connection::handle_packet')
+    sites = packet_state_sites(ctx, hp)
+    for c in constructions(F, 'EndpointEventInner', 'Drained', crate='quinn_proto'):
+        if c.body.id == hp.id:
+            sites.setdefault(c.bb, 'Drained endpoint event')
+    ctx.floor('a', 'packet_handling_sites', len(sites), 4)
+    changers = [b for b, what in sites.items() if what != 'Drained endpoint event']
+    later = set()
+    for b in changers:
+        later |= hp.reachable_strict(b)
+    for v in ('Draining', 'Drained'):
+        cut = state_known_not(ctx, hp, v, later)
+        hit = sorted({sites[b] for b in hp.reachable_from(0, avoid_edges=cut) if b in sites}) if cut else sorted(set(sites.values()))
+        ctx.check(not hit, 'a', 'nothing_handled_once_' + v.lower(), hp, hp.where(), 'with self.state == %s no packet is processed and neither self.error, self.state nor the Drained event is touched (%d sites)' % (v, len(sites)),
+                  'handle_packet still acts on a packet (stateless reset, illegal or authentic packet) while the connection is %s: reachable with self.state == %s: %s - '
+                  'the settled state / reason can change and Drained or ConnectionLost be emitted again' % (v, v, ', '.join(hit)))
+    # (2)
+    open_edges = set()
+    for br, f, t in call_tests(F, hp, 'State::is_closed', 'state'):
+        inner = peel_not(br.desc)[0]
+        if f != t and len(inner) > 4 and isinstance(inner[4], int) and inner[4] not in later:
+            open_edges.add((br.bb, f))
+    reset_edges = set()
+    reset_i = [int(v['discr']) for v in F.adt('quinn_proto::connection::ConnectionError')['variants'] if v['name'] == 'Reset']
+    is_reset = lambda x: x[0] == 'agg' and x[2].endswith('ConnectionError::Reset')
+    for br in branches(F, hp):
+        for truth in (True, False):
+            rel = relation_on(br.desc, truth)
+            if rel is not None and rel[0] == 'Eq' and sum(1 for x in rel[1:3] if is_reset(x)) == 1:
+                reset_edges.add((br.bb, br.target(1 if truth else 0)))
+        if br.desc[0] == 'discr' and reset_i:
+            st = [s for s in hp.blocks[br.bb]['s'] if s[0] == '=' and s[2][0] == 'discr']
+            ty = place_type(F, hp, st[-1][2][1]) if st else None
+            tr = br.target(reset_i[0])
+            if ty is not None and ty.endswith('connection::ConnectionError') and {v for v, t in br.edges if t == tr} == {reset_i[0]}:
+                reset_edges.add((br.bb, tr))
+    stores = {b: w for b, w in sites.items() if w.startswith('store to')}
+    reach = feasible_reach(hp, open_edges | reset_edges)
+    hit = sorted({stores[b] for b in reach if b in stores})
+    why = []
+    if not open_edges:
+        why.append('no test of self.state.is_closed() captured on entry')
+    if not reset_edges:
+        why.append('no test of the error against ConnectionError::Reset')
+    if hit:
+        why.append('reachable with the connection closed on entry and an error other than Reset: ' + ', '.join(hit))
+    ctx.check(bool(stores) and not why, 'd', 'error_on_closed_connection_ignored', hp, hp.where(),
+              'self.error / self.state are stored only if the connection was open on entry or the error is a stateless reset (%d stores)' % len(stores),
+              'an error raised by a packet on an already closed connection still replaces the terminal reason / state (%s): the application is told ConnectionLost a second time '
+              'and an authentic-but-illegal packet can cut the closing period short' % '; '.join(why or ['no store found']))
+
+
 def rule_a(ctx):
     F = ctx.facts
+    settled_once_closed(ctx)
     dr = state_sets(ctx, 'Drained')
     allowed = ['Connection::handle_timeout', 'Connection::kill', 'Connection::handle_packet']
     for c in dr:
@@ -303,6 +461,16 @@ def rule_b(ctx):
         isc = [br for br in branches(F, b) if br.desc[0] == 'call' and br.desc[1] == 'State::is_closed']
         ok = bool(sets) and bool(isc) and all(all(s.bb not in b.reachable_from(br.target(1)) for s in sets) for br in isc)
         ctx.check(ok, 'b', 'no_rearm_when_closed_' + fld, b, b.where(), 'is_closed() edge reaches no timers.set', '%s can re-arm its timer on a closed connection' % fn)
+    # the CID-retirement timer (armed from packet handling: NEW_CONNECTION_ID / RETIRE_CONNECTION_ID of a packet that arrives
+    # while closing) is not armed once closed: every site that may arm a timer lies behind the FALSE edge of a test of
+    # exactly self.state.is_closed()
+    rc = ctx.pfn('Connection::reset_cid_retirement')
+    arm = may_sites(F, rc, ['TimerTable::set'], 2)
+    open_edges = {(br.bb, f) for br, f, t in call_tests(F, rc, 'State::is_closed', 'state') if f != t}
+    ok = bool(arm) and bool(open_edges) and not (rc.reachable_from(0, avoid_edges=open_edges) & arm)
+    ctx.check(ok, 'b', 'no_rearm_when_closed_PushNewCid', rc, rc.where(), 'timers.set only over !self.state.is_closed() (%d arming site(s))' % len(arm),
+              'reset_cid_retirement can arm Timer::PushNewCid on a closed connection (close_common stopped it; a closed connection would wake up and issue CIDs while closing)'
+              if arm else 'reset_cid_retirement no longer arms a timer: anchor lost')
     rk = ctx.pfn('Connection::reset_keep_alive')
     sets = rk.calls_to('TimerTable::set')
     est = [br for br in branches(F, rk) if D.has_call(br.desc, 'State::is_established')]
@@ -415,8 +583,74 @@ def close_arms_without_frame(ctx, pt, enc):
     return why
 
 
+def flag_may_be_cleared(F, body, bb, idx, rv, field):
+    """reasons why storing the rvalue `rv` (statement idx of block bb) into the bool field `field` may turn the field from
+    true to false.  The stored value keeps a set flag when it is the constant true, the field itself, `field | x` (either
+    operand order), or a temporary all of whose reaching definitions are such values; any other value is accepted only
+    where it is produced behind the FALSE edge of a test of exactly the field (`if !self.f { self.f = x }`, `self.f || x`:
+    the flag is known to be clear there)."""
+    d = describer(F, body)
+    cut = {(br.bb, f) for br, f, t in field_tests(F, body, field) if f != t}
+    may_be_set = body.reachable_from(0, avoid_edges=cut) if cut else body.live_blocks()
+
+    def op_bad(o, b, i, depth):
+        if o[0] not in ('c', 'm'):
+            return [] if str(o[2]) in ('1', 'true') else ['the constant %s' % o[2]]
+        place = o[1]
+        if place[1]:
+            v = d.operand(o, b, i)
+            return [] if is_field(v, field) else [D.render(v)[:80]]
+        if depth > 8:
+            return ['a value defined too indirectly']
+        out = []
+        for df in d.reaching_defs(place[0], b, i):
+            if df[0] == 'stmt':
+                out += rv_bad(df[3], df[1], df[2], depth + 1)
+            elif df[0] == 'call' and df[1] not in may_be_set:
+                pass
+            elif df[0] == 'call':
+                out.append(D.render(d.call_desc(df[2], 0))[:80])
+            else:
+                out.append('a value that is not a plain assignment (%s)' % df[0])
+        return out
+
+    def rv_bad(r, b, i, depth):
+        if b not in may_be_set:
+            return []
+        if r[0] == 'use':
+            return op_bad(r[1], b, i, depth)
+        if r[0] == 'bin' and r[1] == 'BitOr':
+            ba, bc = op_bad(r[2], b, i, depth), op_bad(r[3], b, i, depth)
+            return [] if not ba or not bc else ['(%s | %s)' % (ba[0], bc[0])]
+        return [D.render(d.rvalue(r, b, i, 0))[:80]]
+    return rv_bad(rv, bb, idx, 0)
+
+
+def pending_close_kept(ctx):
+    """c/pending_close_never_cancelled: a requested CONNECTION_CLOSE (Connection.close == true) stays requested until
+    poll_transmit has built the packet: outside poll_transmit (which clears the flag behind the encode) and the constructor,
+    every store to the flag can only set it or keep it."""
+    F = ctx.facts
+    clearers = ['Connection::poll_transmit', 'Connection::new']
+    n = 0
+    for w in field_writes(F, CONN, 'close', crate='quinn_proto'):
+        r = F.root_of(w.body)
+        if any(path_matches(r.id, a) for a in clearers) or (w.kind == 'mutborrow' and w.call is not None and is_noise(w.call)):
+            continue
+        n += 1
+        if w.kind == 'assign' and w.rv and w.rv[0] != 'sd':
+            why = flag_may_be_cleared(F, w.body, w.bb, w.idx, w.rv, 'close')
+        else:
+            why = ['the flag is written through a %s' % w.kind]
+        ctx.check(not why, 'c', 'pending_close_never_cancelled', r, w.where(), 'the store to Connection.close only sets or keeps the flag',
+                  '%s can clear a pending close request (stores %s into Connection.close while it may be set): the CONNECTION_CLOSE owed to the peer is never sent; '
+                  'only poll_transmit may clear the flag, once the close packet is built' % (r.short, '; '.join(why)))
+    ctx.floor('c', 'close_flag_setters', n, 3)
+
+
 def rule_c(ctx):
     F = ctx.facts
+    pending_close_kept(ctx)
     pt = ctx.pfn('Connection::poll_transmit')
     from rules import C12
     gs = C12.gate_branch(ctx, pt)
@@ -523,6 +757,19 @@ def place_type(F, body, place):
             nxt = None
             if ty.split('<')[0].endswith('option::Option') and var == 'Some' and e[1] == '0':
                 nxt = ty[ty.index('<') + 1:-1]
+            elif ty.split('<')[0].endswith('result::Result') and var in ('Ok', 'Err') and e[1] == '0':
+                # top-level split of `Result<T, E>`
+                inner, depth, parts, cur = ty[ty.index('<') + 1:-1], 0, [], ''
+                for ch in inner:
+                    depth += ch in '<(['
+                    depth -= ch in '>)]'
+                    if ch == ',' and depth == 0:
+                        parts.append(cur.strip())
+                        cur = ''
+                    else:
+                        cur += ch
+                parts.append(cur.strip())
+                nxt = parts[0 if var == 'Ok' else 1] if len(parts) == 2 else None
             else:
                 try:
                     a = F.adt(e[2]) if e[2] else None
@@ -644,8 +891,93 @@ def routed_cids_recorded(ctx):
                   'ConnectionIndex::remove never purges it, so it keeps routing to the forgotten (later reused) handle' % x[2])
 
 
+def fold_int(d):
+    """integer value of a descriptor made of literals, `+` and `-` only, else None"""
+    if d[0] == 'const' and d[1] == 'int':
+        try:
+            return int(d[2])
+        except ValueError:
+            return None
+    if d[0] == 'bin' and d[1] in ('Add', 'Sub'):
+        a, b = fold_int(d[2]), fold_int(d[3])
+        return None if a is None or b is None else (a + b if d[1] == 'Add' else a - b)
+    return None
+
+
+def recorded_cids_not_displaced(ctx):
+    """e/recorded_cid_not_displaced: a CID recorded in ConnectionMeta.loc_cids stays recorded until ConnectionIndex::remove
+    walks the map.  loc_cids is keyed by sequence number and every later issuance (send_new_identifiers) records its CID
+    under the then current ConnectionMeta.cids_issued, so a CID recorded by add_connection survives only if (1) its key is
+    strictly below the cids_issued value stored in the ConnectionMeta on every path through its insertion, and (2) two
+    insertions on a common path use different keys.  Paths are related through the definitions of the counter: a
+    definition of the stored counter value lies on a common path with an insertion if it is made behind the insertion, or
+    reaches the insertion and is still the current one when the record is built."""
+    F = ctx.facts
+    ac = ctx.pfn('Endpoint::add_connection')
+    d = describer(F, ac)
+    metas = [c for c in constructions(F, 'endpoint::ConnectionMeta', None, crate='quinn_proto') if c.body.id == ac.id
+             and c.field_op('loc_cids') is not None and c.field_op('cids_issued') is not None]
+    n = 0
+    for m in metas:
+        mp = d.operand(m.field_op('loc_cids'), m.bb, m.idx)
+        ins = [c for c in ac.calls() if c.bb in ac.live_blocks() and c.bb != m.bb and len(c.args) == 3 and short(c.f).endswith('::insert')
+               and (arg_desc(F, c, 0) == mp or D.has_field(arg_desc(F, c, 0), 'loc_cids')) and m.bb in ac.reachable_strict(c.bb)]
+        keys = {c.bb: [fold_int(x) for x in flat(arg_desc(F, c, 1))] for c in ins}
+        # the counter: follow plain copies back to the variable, then its definitions reaching the record
+        op, at = m.field_op('cids_issued'), (m.bb, m.idx)
+        while op[0] in ('c', 'm') and not op[1][1]:
+            ds = ac.defs_of(op[1][0])
+            if len(ds) == 1 and ds[0][0] == 'stmt' and ds[0][3][0] == 'use' and ds[0][3][1][0] in ('c', 'm') and not ds[0][3][1][1][1]:
+                op, at = ds[0][3][1], (ds[0][1], ds[0][2])
+            else:
+                break
+        why = []
+        defs = []     # (block or None, [values])
+        if op[0] in ('c', 'm') and not op[1][1]:
+            var = op[1][0]
+            for df in d.reaching_defs(var, at[0], at[1]):
+                if df[0] == 'stmt':
+                    defs.append((df[1], [fold_int(x) for x in flat(d.rvalue(df[3], df[1], df[2], 0))], df))
+                else:
+                    defs.append((None, [None], df))
+            all_def_blocks = {x[1] for x in ac.defs_of(var) if x[0] in ('stmt', 'call', 'field', 'callfield', 'sd')}
+        else:
+            var = None
+            defs.append((None, [fold_int(x) for x in flat(d.operand(op, at[0], at[1]))], None))
+            all_def_blocks = set()
+        if not ins:
+            why.append('no insertion into the map stored as loc_cids found')
+        if any(v is None for _, vs, _ in defs for v in vs) or not defs:
+            why.append('the stored cids_issued is not a sum of literals on every path')
+        if any(k is None for ks in keys.values() for k in ks):
+            why.append('a CID is recorded under a key that is not a sum of literals')
+        if not why:
+            for s in ins:
+                here = d.reaching_defs(var, s.bb, term_idx(ac, s.bb)) if var is not None else []
+                for dbb, vs, df in defs:
+                    if df is None:
+                        common = True
+                    elif dbb in ac.reachable_strict(s.bb):
+                        common = True
+                    else:
+                        common = df in here and path_avoiding(ac, ac.succ[s.bb], [m.bb], all_def_blocks - {m.bb}) is not None
+                    if common and any(k >= v for k in keys[s.bb] for v in vs):
+                        why.append('a CID is recorded under sequence number %s on a path on which the connection starts with cids_issued = %s: the next CID issued is recorded under '
+                                   'that number again and displaces it' % (sorted(set(keys[s.bb])), sorted(set(vs))))
+            for a in ins:
+                for b in ins:
+                    if a.bb != b.bb and b.bb in ac.reachable_strict(a.bb) and set(keys[a.bb]) & set(keys[b.bb]):
+                        why.append('two CIDs are recorded under the same sequence number %s' % sorted(set(keys[a.bb]) & set(keys[b.bb])))
+        n += 1
+        ctx.check(not why, 'e', 'recorded_cid_not_displaced', ac, m.where(), '%d recorded CID(s), each under a distinct sequence number below the stored cids_issued' % len(ins),
+                  'a CID recorded in ConnectionMeta.loc_cids by add_connection does not stay recorded (%s): once displaced it is still routed by ConnectionIndex.connection_ids '
+                  'but ConnectionIndex::remove, which walks loc_cids, never forgets it' % '; '.join(sorted(set(why))))
+    ctx.floor('e', 'connection_meta_records', n, 1)
+
+
 def rule_e(ctx):
     F = ctx.facts
+    recorded_cids_not_displaced(ctx)
     he = ctx.pfn('Endpoint::handle_event')
     tr = he.calls_to('Slab::try_remove')
     rm = he.calls_to('ConnectionIndex::remove')
